@@ -25,6 +25,7 @@
 
 extern "C" void __sanitizer_set_death_callback(void (*callback)(void)) __attribute__((weak));
 
+extern "C" void __sanitizer_print_memory_profile(size_t top_percent, size_t max_number_of_contexts) __attribute__((weak));
 namespace vf {
 
 // ---------------------------------------------------------------------------------------------
@@ -548,6 +549,7 @@ inline int harness_main(int argc, char **argv, const Harness &h) {
   alarm(0);
   current_case().tokens.clear();
   write_stats();
+  if (getenv("VERIF_MEMPROFILE") && &__sanitizer_print_memory_profile) __sanitizer_print_memory_profile(95, 12);
   return ok ? 0 : 1;
 }
 
